@@ -113,6 +113,13 @@ def run(ctx):
             continue
         cfg = l3common.rand_cfg(rng)
         steps = rand_steps(rng, names, len(names))
+        from props.C06 import file_patches
+        if file_patches(ctx, w) is None:
+            # a patch that does not parse: the parallel driver loads every patch of the range first and refuses the
+            # whole push (C17), the sequential one only when it gets there - C06 exempts such series, so do we:
+            # split pushes of such a series are compared single-threaded
+            steps = [(g, 1) for g, _ in steps]
+            hist["series with an unparseable patch: single-threaded steps"] += 1
         hist["steps=%d" % len(steps)] += 1
         for g, t in steps:
             hist["goal=" + g[0]] += 1
